@@ -63,7 +63,12 @@ impl FileSystem for PhysicalFS {
     }
 
     fn open_file(&self, path: &str) -> VfsResult<Box<dyn SeekAndRead + Send>> {
-        Ok(Box::new(File::open(self.get_path(path))?))
+        let file = File::open(self.get_path(path))?;
+        if file.metadata()?.is_dir() {
+            // opening a directory succeeds on some platforms and only fails on the first read
+            return Err(VfsErrorKind::Other("Not a file".into()).into());
+        }
+        Ok(Box::new(file))
     }
 
     fn create_file(&self, path: &str) -> VfsResult<Box<dyn SeekAndWrite + Send>> {
